@@ -29,10 +29,16 @@ import (
 	"time"
 )
 
-const (
-	repoDir  = "/repo"
-	verifDir = "/verif"
-)
+const repoDir = "/repo"
+
+// verifDir is /verif; VERIF_HOME overrides it (development in a git worktree
+// of /verif while a long experiment is using the main one).
+var verifDir = func() string {
+	if v := os.Getenv("VERIF_HOME"); v != "" {
+		return v
+	}
+	return "/verif"
+}()
 
 var (
 	scratch     string
@@ -93,6 +99,18 @@ type prepOpts struct {
 func copyTree(dst string) {
 	if err := os.MkdirAll(dst, 0o755); err != nil {
 		die(2, "mkdir %s: %v", dst, err)
+	}
+	if os.Getenv("VERIF_REPO_HEAD") != "" {
+		// development only: /repo's HEAD instead of its working tree
+		if out, err := run("", nil, "sh", "-c", fmt.Sprintf("git -C %s archive HEAD | tar -x -C %s", repoDir, dst)); err != nil {
+			die(2, "git archive: %v\n%s", err, out)
+		}
+		if pf := os.Getenv("VERIF_REPO_PATCH"); pf != "" {
+			if out, err := run(dst, nil, "patch", "-p1", "-s", "-i", pf); err != nil {
+				die(2, "patch: %v\n%s", err, out)
+			}
+		}
+		return
 	}
 	if out, err := run("", nil, "rsync", "-a", "--exclude", ".git", repoDir+"/", dst+"/"); err != nil {
 		die(2, "rsync: %v\n%s", err, out)
